@@ -237,6 +237,8 @@ func H_C06_entry() {
 var c06Pairs = [][2]string{
 	{"join(' ', a)", "join('  ', a)"}, {"\"a b\"", "\"a  b\""}, {"'x'", "' x'"}, {"a.b", "a .b"}, {"`\"a b\"`", "`\"a  b\"`"}, {"a == 'A'", "a == 'a'"},
 	{"[a,b]", "[a, b]"}, {"'a\tb'", "'a b'"}, {"\"a\\tb\"", "\"a b\""}, {"a||b", "a || b"}, {"length(a)", "length( a )"}, {"a[0]", "a[ 0 ]"}, {"'a' 'b'", "'a''b'"},
+	// the same text padded with characters that are white space to Go but not to the grammar
+	{"a", "a\u00a0"}, {"a", "\va"}, {"a.b", "a.b\u2028"}, {"a", "a\f"}, {"a", "\u0085 a \u3000"}, {"a", " a "}, {"a", "a\x00"},
 }
 
 // H_C06_history: the outcome of a call does not depend on which other
